@@ -167,14 +167,25 @@ def main(argv=None):
         n_ex = 0
         if ex is not None:
             for j, spec in enumerate(ex(a.tier, ctx)):
-                if j % a.nshards != a.shard:
+                # the enumerated part is spread over the normal shards only (the -X dev shard is slow)
+                if a.nshards > 1 and plan.get("dev_shard", True):
+                    if a.shard == 1:
+                        break
+                    others = [s_ for s_ in range(a.nshards) if s_ != 1]
+                    if others[j % len(others)] != a.shard:
+                        continue
+                elif j % a.nshards != a.shard:
                     continue
                 res = run_one(mod, ctx, spec, timeout)
                 account(spec, res, f"ex{j}")
                 n_ex += 1
         out["exhaustive_cases"] = n_ex
         deadline = t0 + plan.get("shard_budget_s", 1e9)
-        for idx in range(a.shard, a.cases, a.nshards):
+        # the shard that runs under -X dev (debug allocator, ~10x slower) takes every 8th of its cases
+        stride = a.nshards * (8 if sys.flags.dev_mode else 1)
+        if sys.flags.dev_mode:
+            ctx["counters"]["dev_mode_shard_cases_skipped"] += len(range(a.shard, a.cases, a.nshards)) - len(range(a.shard, a.cases, stride))
+        for idx in range(a.shard, a.cases, stride):
             if time.time() > deadline:
                 ctx["counters"]["budget_stop"] += 1
                 break
